@@ -257,7 +257,12 @@ def judge_kernel(evs, heights, results):
             tol = 1e-4 if b <= math.radians(42.0) + 1e-12 else 5e-3
             # ... and a detector a few km from the decay point: both distances are differences of Earth-radius-sized
             # single-precision numbers, worth 2 x (a few eps32) x R / |d| in the squared ratio (measured 1.8e-4 at 8 km)
-            tol = max(tol, 8 * 6e-8 * 6378.0 / max(abs(d_h), 1e-9))
+            # ... and the two compound: the law-of-sines distance carries its rounding error divided by cos(beta), so
+            # for a steep track the nearby-detector term grows by cos(42 deg) / cos(beta) (x 10 at 85.9 deg; measured
+            # 1.67e-2 for a detector 1 km above an 11 km decay at 85.9 deg, 4e-14 with the kernel run in double
+            # precision through the NUSPACESIM_VERIF_DTYPE hook - the formula is right, the digits are single)
+            steep = max(1.0, math.cos(math.radians(42.0)) / max(math.cos(b), 1e-12))
+            tol = max(tol, steep * 8 * 6e-8 * 6378.0 / max(abs(d_h), 1e-9))
             if not (abs(dh - exp) <= tol * abs(exp) + 1e-300):
                 out.append(("inverse_square_altitude_scaling", (h, b, a, E), exp, dh))
             if not (np.float64(ah).tobytes() == np.float64(a525).tobytes()):
